@@ -32,6 +32,11 @@ def make_source(rec):
     Returns (numpy value, dask array)."""
     import dask_array as da
 
+    if rec.get("random"):
+        # a random array is its own source: one realization, computed once
+        x = eval(rec["random"], {"da": da, "np": np})
+        a = np.asarray(x.compute(scheduler="sync"))
+        return a, x
     shape = tuple(rec["shape"])
     n = int(np.prod(shape)) if shape else 1
     base = np.arange(n).reshape(shape) + rec.get("offset", 10)
@@ -68,6 +73,8 @@ def make_pool(rec):
 
 
 def source_src(rec):
+    if rec.get("random"):
+        return f"x0 = {rec['random']}\nn0 = np.asarray(x0.compute(scheduler='sync'))\na = n0"
     shape = tuple(rec["shape"])
     dt = rec.get("dtype", "f8")
     lines = [f"_n = int(np.prod({shape!r})) if {shape!r} else 1", f"_base = np.arange(_n).reshape({shape!r}) + {rec.get('offset', 10)}"]
@@ -294,7 +301,10 @@ def minimal_path(ctx, fails_again):
 
 
 def prog_str(case):
-    s = f"src{tuple(case['source']['shape'])}/{tuple(tuple(c) for c in case['source']['chunks'])}/{case['source'].get('dtype', 'f8')}"
+    if case["source"].get("random"):
+        s = f"src[{case['source']['random']}]"
+    else:
+        s = f"src{tuple(case['source']['shape'])}/{tuple(tuple(c) for c in case['source']['chunks'])}/{case['source'].get('dtype', 'f8')}"
     for k, ch in enumerate(case["source"].get("leaves", []), start=1):
         s += f" x{k}=leaf{tuple(tuple(c) for c in ch)}"
     for opname, idxs in case["steps"]:
